@@ -66,11 +66,15 @@ def run(ctx) -> None:
         m = gn.methods.get(name)
         if m is None:
             raise AnalysisError(f"GraphNode.{name} vanished")
-        t = src(m.node)
-        i_res = t.find("_resolve_original_input_name(param)")
-        i_bound = t.find("in self._graph.inputs.bound")
-        i_def = t.find("inner_node.has_default_for(original_param)")
-        ok = 0 <= i_res < i_bound < i_def
+        from sa.pattern import find_all, solve
+
+        ok = False
+        for env in solve(["_O = self._resolve_original_input_name(param)", "_O in self._graph.inputs.bound", "_I.has_default_for(_O)"], m.node):
+            res = [n.lineno for n, _ in find_all("_O = self._resolve_original_input_name(param)", m.node, env)]
+            bnd = [n.lineno for n, _ in find_all("_O in self._graph.inputs.bound", m.node, env)]
+            dfl = [n.lineno for n, _ in find_all("_I.has_default_for(_O)", m.node, env)]
+            if res and bnd and dfl and min(res) < min(bnd) < min(dfl):
+                ok = True
         rep.add("C05.R5", f"{m.qname}", ok, m.loc(), "resolves the original name, then inner bound value, then inner node default" if ok else "inner bound values / defaults are not consulted in the order resolve -> bound -> default under the original name")
 
 
